@@ -114,6 +114,15 @@ func Read(r parser.ReadSeekSizer) (Info, error) {
 				res[key] += value
 			}
 		}
+
+		// Subtables must not overlap: the next subtable starts after the
+		// pairs which were actually read, even if the length field says
+		// otherwise (the 16-bit length field is too small for tables with
+		// more than 10920 pairs).  This keeps the total work linear in the
+		// size of the table.
+		if q := p.Pos(); q > pos {
+			pos = q
+		}
 	}
 
 	return res, nil
